@@ -76,6 +76,23 @@ pub fn run(ctx: &mut Ctx) {
             }
         }
     }
+    // (3) a bare LF as the line end in front of (or behind) a framing field: it ends the line like CRLF does — the framing field
+    //     that follows is a field of its own, never part of the previous value
+    for m in ["POST", "GET"] {
+        for framing in ["content-length: 3", "content-length: 3\ncontent-length: 4", "transfer-encoding: chunked", "transfer-encoding: gzip\ncontent-length: 3", "expect: 100-continue\ncontent-length: 3"] {
+            for shape in 0..4 {
+                idx += 1;
+                if !ctx.mine(idx) { continue; }
+                let fr = framing.replace('\n', if shape % 2 == 0 { "\n" } else { "\r\n" });
+                let head = match shape {
+                    0 | 1 => format!("{m} /p HTTP/1.1\r\nx-a: 1\n{fr}\r\n\r\nabcGET /second HTTP/1.1\r\n\r\n"),
+                    2 => format!("{m} /p HTTP/1.1\n{fr}\nx-b: 2\r\n\r\nabcGET /second HTTP/1.1\r\n\r\n"),
+                    _ => format!("{m} /p HTTP/1.1\r\n{fr}\nx-b: 2\r\n\r\nabc"),
+                };
+                case(ctx, "c03", "8192", "", &enc(head.as_bytes()), "eof", "", "0");
+            }
+        }
+    }
     // (2) framing fields whose value holds a byte >= 0x80 (obs-text), alone, after and before a valid field of the same name:
     //     the head is malformed; the field is never dropped and the request never processed as if it were absent
     let fields: [(&str, &[u8]); 5] = [("content-length", b"5"), ("transfer-encoding", b"chunked"), ("expect", b"100-continue"), ("content-type", b"text/plain"), ("cookie", b"a=b")];
